@@ -27,6 +27,16 @@ class SymComp:
         self.runner = CompRunner(make(modname, cls, **kw), prerun=False)
         self.comp = self.runner.comp
 
+    @classmethod
+    def from_instance(cls, comp, prob, extra=None):
+        """wrap a component that already lives in a set-up Problem (e.g. a subsystem of a real group): options and
+        attributes are exactly what the group's own setup() gave it"""
+        self = cls.__new__(cls)
+        self.modname, self.cls, self.kw, self.extra = type(comp).__module__.replace("openaerostruct.", ""), type(comp).__name__, None, extra
+        self.runner = CompRunner(comp, prob=prob, prerun=False)
+        self.comp = comp
+        return self
+
     @property
     def in_names(self):
         return self.runner.in_names
